@@ -170,6 +170,7 @@ def main(argv=None):
         other = [v for v in res.get('violations', [])
                  if v['sig'] != wit['sig']]
         for v in hit[:1]:
+            print('VIOLATION property=%s replay=%s' % (pid, args.replay))
             print('REPRODUCED property=%s sig=%s' % (pid, v['sig']))
             print(json.dumps(v, indent=1, default=str)[:6000])
         if not hit:
